@@ -204,7 +204,7 @@ def main(argv=None):
     wall = time.time() - t0
     # ---- evidence ----------------------------------------------------------------------------------------------
     states = agg['paths'] + int(extra.get('states', 0))
-    transitions = agg['decisions'] + int(extra.get('transitions', 0))
+    transitions = agg['decisions'] + int(extra.get('transitions', 0)) + int(stats.get('model_steps', 0))   # + steps of an executed state model (C09 tableau)
     obligations = int(stats.get('obligations', 0)) + int(extra.get('obligations', 0))
     discharged = int(stats.get('discharged', 0)) + int(extra.get('discharged', 0))
     if not samples:
